@@ -430,6 +430,8 @@ def exec_oracle(name, obs):
     if obs is None:
         return 'no observation', None
     if obs.startswith('refused:'):
+        if ' inner=' in obs and ' inner=ok' not in obs:
+            return f'the function goom selects for a generic instantiation is not the target of the wrapper\'s CALL: {obs}', None
         if obs.split(' retried-after')[0].endswith('clean=true'):
             return None
         if name == 'RemockRefused':
